@@ -242,6 +242,8 @@ def overlay_sweep(col, sig0, background):
             for length in lengths:
                 for fat in ((False, True, 'numfats', 'media')
                             if 'gpt' in extra else (False,)):
+                    if isinstance(fat, str) and length > 70000:
+                        continue        # the first sector decides this
                     content = {'overlay': dict(length=length,
                                                background=background,
                                                sigs=sigs, fill=7, fat=fat),
